@@ -29,7 +29,7 @@ STUBS = ["Pool stub", "np proxy", "SymArray", "generator stub", "np.linalg.norm 
 def bounds_text(tier):
     if tier == "quick":
         return ("enumeration+gaps: n=3 every start K x every k x P in {1,2,3,16}; n=4 minimal start k<=2 (56 sets) x P in {1,2,3,5,16}, 6 seeded starts k<=2; "
-                "meta-game n=3 all 8 coalitions, n=4 16; best-states n=3 k<=3 m<=2, n=4 k=1")
+                "meta-game n=3 all 8 coalitions, n=4 16; best-states n=3 k<=3 m<=2, n=4 four starts with 6 known extras k<=2; best-states for ANY integer-valued game (no class) at two n=4 starts")
     return "as quick plus n=4: 16 seeded starts k<=3, meta-game all 1024 at n=4 split, best-states n=4 k<=2 (budgeted)"
 
 
